@@ -208,7 +208,7 @@ Fixpoint mutex_leaf (inside : bool) (l : list (op * bool)) : bool :=
   match l with
   | [] => true
   | (o, _) :: r =>
-      if role_eqb (o_role o) RSessMutex then
+      if role_eqb (o_role o) RSessMutex || role_eqb (o_role o) RPeerMutex then
         match o_kind o with
         | OLock => mutex_leaf true r
         | OUnlock => mutex_leaf false r
@@ -219,7 +219,7 @@ Fixpoint mutex_leaf (inside : bool) (l : list (op * bool)) : bool :=
   end.
 
 Definition uses_sess_mutex (f : func) : bool :=
-  existsb (fun o => role_eqb (o_role o) RSessMutex) (f_ops f).
+  existsb (fun o => role_eqb (o_role o) RSessMutex || role_eqb (o_role o) RPeerMutex) (f_ops f).
 
 Definition mutex_sections_leaf (fs : list func) : bool :=
   forallb (fun f =>
